@@ -10,7 +10,10 @@ The tie of the models to the running code is the correspondence harness (harness
 -/
 import Pandora.Bridge.C06Phout
 import Pandora.Bridge.C06Cli
+import Pandora.Bridge.C06AggQ
 import Pandora.Proofs.C06Queue
+import Pandora.Proofs.C06Return
+import Pandora.Proofs.C06Pool
 
 namespace Pandora.Props.C06
 open Pandora.Model.Phout Pandora.Proofs.C06
@@ -239,6 +242,364 @@ theorem C06_queue_late_report_lost :
   decide
 
 end Queue
+
+/-! ## (ii') the same for EVERY schedule: no assumption on where the cancel is -/
+
+section Queue2
+open Pandora.Model.AggQueue Pandora.Proofs.C06Queue
+
+/-- what `Run` returns: phout nil; encoder aggregators `DroppedErr()` of the drop counter -/
+def runErr (cfg : Cfg) (n : Nat) : Option Nat :=
+  match cfg.kind with
+  | .phout => none
+  | .encoder => droppedErr n
+
+/-- **the moment Run returns, for EVERY schedule** (no assumption on the position of the cancel, on late
+Report calls, on anything): let `pre` be any schedule after which `Run` is in its drain loop with an empty
+queue, so that its next step is `default: return`; `post` is whatever happens afterwards. Then
+* at the return: sink ++ counted drops is a permutation of ALL Report calls completed so far, the sink holds
+  the enqueued ones in completion order, queue and writer buffer are empty, the sink is closed, the error
+  counts exactly the drops (phout: none, and the sink is exactly the reports);
+* afterwards: sink, error and closed flag never change again; later Report calls only extend the report log. -/
+theorem C06_queue_any_schedule {β : Type} (cfg : Cfg) (progs : Nat → List β) (pre post : List Ev) :
+    let s0 := run cfg (init progs) pre
+    let s1 := step cfg s0 .drain
+    let s2 := run cfg s1 post
+    s0.phase = .draining → s0.q = [] →
+      (s1.phase = .returned ∧ s1.reports = s0.reports ∧
+       (s1.out ++ s1.dropped).Perm s1.reports ∧ s1.out.Sublist s1.reports ∧
+       s1.q = [] ∧ s1.buf = [] ∧ s1.closed = true ∧ s1.err = runErr cfg s1.dropped.length ∧
+       (cfg.kind = .phout → s1.dropped = [] ∧ s1.out = s1.reports)) ∧
+      (s2.phase = .returned ∧ s2.out = s1.out ∧ s2.err = s1.err ∧ s2.closed = true ∧ s2.buf = [] ∧
+       s1.reports <+: s2.reports) := by
+  intro s0 s1 s2 hph hq
+  have inv : Inv cfg progs s0 := inv_run pre (inv_init cfg progs)
+  obtain ⟨hout, hlog, hbuf, hq1, hcl, herr, hdrop, _⟩ := at_return inv hph hq
+  have hret : s1.phase = .returned := by
+    show (step cfg s0 .drain).phase = .returned
+    simp only [step, hph, hq]
+  have hrep : s1.reports = s0.reports := by simp only [St.reports]; rw [show s1.log = s0.log from hlog]
+  have hperm : (s1.out ++ s1.dropped).Perm s1.reports := by
+    rw [show s1.out = accepted s0.log from hout, show s1.dropped = rejected s0.log from hdrop, hrep]
+    exact accepted_rejected_perm s0.log
+  have hsub : s1.out.Sublist s1.reports := by
+    rw [show s1.out = accepted s0.log from hout, hrep]; exact accepted_sublist s0.log
+  refine ⟨⟨hret, hrep, hperm, hsub, hq1, hbuf, hcl, ?_, ?_⟩, ?_⟩
+  · rw [show s1.err = retErr cfg s0.dropped.length from herr, show s1.dropped = rejected s0.log from hdrop,
+      ← inv.drops]
+    rfl
+  · intro hk
+    have hd : s1.dropped = [] := by
+      rw [show s1.dropped = rejected s0.log from hdrop, ← inv.drops]; exact inv.nodrop hk
+    refine ⟨hd, ?_⟩
+    rw [show s1.out = accepted s0.log from hout, hrep]
+    apply accepted_of_rejected_nil
+    rw [← hdrop]; exact hd
+  · obtain ⟨i1, i2, i3, i4, i5⟩ := stable_run cfg post hret hbuf
+    refine ⟨i1, i2, i3, i4.trans hcl, i5, ?_⟩
+    simp only [St.reports]
+    exact (log_run cfg post s1).map _
+
+/-- every schedule after which `Run` has returned is of the form the previous theorem is about -/
+theorem C06_queue_return_split {β : Type} (cfg : Cfg) (progs : Nat → List β) (sched : List Ev)
+    (h : (run cfg (init progs) sched).phase = .returned) :
+    ∃ pre post, sched = pre ++ .drain :: post ∧
+      (run cfg (init progs) pre).phase = .draining ∧ (run cfg (init progs) pre).q = [] :=
+  return_split cfg sched (init progs) (by simp [init]) h
+
+/-- **reported before the cancel ⇒ written or counted**, for EVERY schedule: split any schedule at its first
+`cancel` (end of run, SIGINT/SIGTERM, failure of another task — whatever cancels the context). If `Run` has
+returned at the end, then the Report calls completed before the cancel are a prefix of the calls that the
+final sink and error account for: `sink ++ counted` is a permutation of a prefix `R` of the report log which
+contains all of them. Report calls after the cancel may or may not be in `R` (they are iff they completed
+before `Run` returned). -/
+theorem C06_queue_reported_before_cancel {β : Type} (cfg : Cfg) (progs : Nat → List β) (a b : List Ev)
+    (ha : ∀ e ∈ a, e ≠ .cancel) :
+    let sa := run cfg (init progs) a
+    let st := run cfg (init progs) (a ++ .cancel :: b)
+    st.phase = .returned →
+      ∃ (R counted : List (Item β)), sa.reports <+: R ∧ R <+: st.reports ∧
+        (st.out ++ counted).Perm R ∧ st.out.Sublist R ∧ st.err = runErr cfg counted.length ∧
+        st.closed = true ∧ st.buf = [] ∧ (cfg.kind = .phout → counted = [] ∧ st.out = R) := by
+  intro sa st hret
+  obtain ⟨pre, post, hs, hph, hq⟩ := C06_queue_return_split cfg progs _ hret
+  obtain ⟨⟨_, hrep, hperm, hsub, _, _, _, herr, hph2⟩, ⟨_, o2, o3, o4, o5, o6⟩⟩ :=
+    C06_queue_any_schedule cfg progs pre post hph hq
+  -- `a` is a prefix of `pre`: before the cancel nothing is cancelled, and draining needs the cancel
+  have hpre : a <+: pre := by
+    -- compare the two decompositions of the schedule
+    have hcanc : (run cfg (init progs) pre).cancelled = true :=
+      (inv_run pre (inv_init cfg progs)).draining hph
+    rcases List.append_eq_append_iff.mp hs with ⟨c, hc1, hc2⟩ | ⟨c, hc1, hc2⟩
+    · -- pre = a ++ c
+      exact ⟨c, hc1.symm⟩
+    · -- a = pre ++ c, with c ++ cancel :: b = drain :: post; then pre has no cancel: contradiction
+      exfalso
+      have : (run cfg (init progs) pre).cancelled = false := by
+        rw [cancelled_of_nocancel cfg pre _ (fun e he => ha e (by rw [hc1]; simp [he]))]; rfl
+      rw [hcanc] at this; cases this
+  obtain ⟨c, hc⟩ := hpre
+  have hst : st = run cfg (step cfg (run cfg (init progs) pre) .drain) post := by
+    show run cfg (init progs) (a ++ .cancel :: b) = _
+    rw [hs, run_append]; rfl
+  refine ⟨(step cfg (run cfg (init progs) pre) .drain).reports, (step cfg (run cfg (init progs) pre) .drain).dropped,
+    ?_, ?_, ?_, ?_, ?_, ?_, ?_, ?_⟩
+  · rw [hrep, ← hc, run_append]
+    simp only [St.reports]
+    exact (log_run cfg c _).map _
+  · rw [hst]; exact o6
+  · rw [hst, o2]; exact hperm
+  · rw [hst, o2]; exact hsub
+  · rw [hst, o3]; exact herr
+  · rw [hst]; exact o4
+  · rw [hst]; exact o5
+  · intro hk
+    rw [hst, o2]; exact hph2 hk
+
+/-- non-vacuity: a Report that completes after the cancel but before `Run` returned is written, one that
+completes after the return is not — and both schedules satisfy the hypotheses of the theorem above -/
+example :
+    let progs : Nat → List Nat := fun r => if r = 0 then [1, 2, 3] else []
+    let st := run ⟨.phout, 4⟩ (init progs) ([.report 0] ++ .cancel :: [.report 0, .seeCancel, .drain, .drain, .drain, .report 0])
+    st.phase = .returned ∧ st.out = [(0, 1), (0, 2)] ∧ st.reports = [(0, 1), (0, 2), (0, 3)] ∧ st.q = [(0, 3)] := by
+  decide
+
+end Queue2
+
+/-! ## the result file of a whole run -/
+
+section ResultFile
+open Pandora.Model.AggQueue Pandora.Proofs.C06Queue
+
+/-- the bytes the sink holds when its content is the samples `out`, one encoded line each; `none` if the
+encoder would panic on one of them -/
+def sinkBytes (withId : Bool) : List (Item Sample) → Option Bytes
+  | [] => some []
+  | x :: rest => do
+      let l ← encode x.2 withId
+      let r ← sinkBytes withId rest
+      pure (l ++ r)
+
+/-- **phout result file of a whole run** — any number of reporter goroutines with in-format samples, any
+queue size, ANY schedule: once `Run` has returned, the destination holds well-formed lines only, one per
+sample of the sink list (which by `C06_queue_any_schedule` is: every Report completed before the return,
+each once, in completion order): splitting the file at LF gives exactly that many lines, nothing after the
+last LF, and line `i` decodes to sample `i`. -/
+theorem C06_phout_result_file (cap : Nat) (progs : Nat → List Sample) (withId : Bool) (sched : List Ev)
+    (hfmt : ∀ r, ∀ s ∈ progs r, InFormat s) :
+    let st := run ⟨.phout, cap⟩ (init progs) sched
+    ∃ file lines, sinkBytes withId st.out = some file ∧ fileLines file = some lines ∧
+      lines.length = st.out.length ∧
+      lines.map (fun l => decode (l ++ [LF]) withId) = st.out.map (fun x => some (asWritten x.2 withId)) := by
+  intro st
+  have inv : Inv ⟨.phout, cap⟩ progs st := inv_run sched (inv_init _ progs)
+  -- every sample in the sink is one of its reporter's program
+  have hmem : ∀ x ∈ st.out, x.2 ∈ progs x.1 := by
+    intro x hx
+    have h1 : x ∈ accepted st.log := by rw [← inv.flow]; simp [hx]
+    have h2 : x ∈ st.reports := (accepted_sublist st.log).subset h1
+    have h3 : x.2 ∈ ofReporter x.1 st.reports := by
+      unfold ofReporter
+      exact List.mem_map.mpr ⟨x, List.mem_filter.mpr ⟨h2, by simp⟩, rfl⟩
+    rw [← inv.progs x.1]; simp [h3]
+  obtain ⟨bodies, hb1, hb2, hb3⟩ := C06_phout_file (st.out.map (·.2)) withId (by
+    intro s hs
+    obtain ⟨x, hx, rfl⟩ := List.mem_map.mp hs
+    exact hfmt x.1 x.2 (hmem x hx))
+  have hlen : bodies.length = st.out.length := by
+    have := congrArg List.length hb1; simpa using this.symm
+  refine ⟨bodies.flatMap (fun b => b ++ [LF]), bodies, ?_, hb2, hlen, ?_⟩
+  · -- sinkBytes follows the list of encoded lines
+    have key : ∀ (out : List (Item Sample)) (bs : List Bytes),
+        (out.map (·.2)).map (fun s => encode s withId) = bs.map (fun b => some (b ++ [LF])) →
+        sinkBytes withId out = some (bs.flatMap (fun b => b ++ [LF])) := by
+      intro out
+      induction out with
+      | nil => intro bs h; cases bs with
+        | nil => rfl
+        | cons _ _ => simp at h
+      | cons x rest ih =>
+        intro bs h
+        cases bs with
+        | nil => simp at h
+        | cons b bs' =>
+          simp only [List.map_cons, List.cons.injEq] at h
+          simp only [sinkBytes, h.1, ih bs' h.2]
+          rfl
+    exact key st.out bodies hb1
+  · rw [hb3]; simp
+
+/-- **line-oriented result file, any encoder** (jsonlines: `enc` = the JSON text of a sample; jsoniter escapes
+control characters inside strings and writes no raw LF, which is observed on the real encoder, not proved):
+if no encoded value contains LF, the file made of `enc x ++ LF` for the sink list splits into exactly one
+line per written sample, in order, nothing after the last LF; so with `C06_queue_any_schedule`
+lines + counted drops = Report calls completed before the return. -/
+theorem C06_lines_result_file {β : Type} (enc : β → Bytes) (henc : ∀ x, LF ∉ enc x) (cfg : Cfg)
+    (progs : Nat → List β) (pre : List Ev) :
+    let s0 := run cfg (init progs) pre
+    let s1 := step cfg s0 .drain
+    s0.phase = .draining → s0.q = [] →
+      fileLines (s1.out.flatMap (fun x => enc x.2 ++ [LF])) = some (s1.out.map (fun x => enc x.2)) ∧
+      (s1.out.map (fun x => enc x.2)).length + s1.dropped.length = s1.reports.length ∧
+      s1.err = runErr cfg s1.dropped.length := by
+  intro s0 s1 hph hq
+  obtain ⟨⟨_, _, hperm, _, _, _, _, herr, _⟩, _⟩ := C06_queue_any_schedule cfg progs pre [] hph hq
+  refine ⟨?_, ?_, herr⟩
+  · have := fileLines_of_lines (s1.out.map (fun x => enc x.2)) (by
+      intro b hb; obtain ⟨x, _, rfl⟩ := List.mem_map.mp hb; exact henc x.2)
+    rw [← this, List.flatMap_map]
+  · have := hperm.length_eq
+    simpa using this
+
+end ResultFile
+
+/-! ## (iv) the pool: the end-of-run cancel comes after the last Report; `Engine.Wait` after the aggregator -/
+
+section Pool
+open Pandora.Model.C06Pool Pandora.Proofs.C06Pool
+open Pandora.Model.AggQueue (Ev NoReportAfterCancel)
+
+/-- **the end-of-run cancel comes after the last Report** — for every trace of the pool's goroutines
+(instance start, instances reporting and finishing, provider, aggregator, the four cases of `awaitRun`) in
+which the pool's parent context is NOT cancelled from outside: what the aggregator sees (`emitted`:
+completed Report calls and the cancel issued by `checkAllInstancesAreFinished`) has no Report after the
+cancel; when the cancel is issued no instance is running and instance start is over. Hence every aggregator
+schedule whose report/cancel events are these satisfies the hypothesis of `C06_queue_complete`.
+The number of results awaited is the regenerated `resultsToWait`. -/
+theorem C06_pool_cancel_after_reports (trace : List PEv) (hne : ∀ e ∈ trace, e ≠ PEv.extCancel) :
+    let st := run (init Gen.AggQ.engineResultsToWait) trace
+    NoReportAfterCancel st.emitted ∧
+    (st.cancelled = true → st.running = 0 ∧ st.starting = false ∧ st.runResOpen = false) ∧
+    (∀ sched : List Ev, sched.filter isRC = st.emitted → NoReportAfterCancel sched) := by
+  intro st
+  have hst : st = run (init 4) trace := by
+    show run (init Gen.AggQ.engineResultsToWait) trace = _
+    rw [Bridge.AggQ.results_to_wait]
+  have p : PInv st := by rw [hst]; exact pinv_run trace pinv_init
+  have e : EInv st := by rw [hst]; exact einv_run trace pinv_init einv_init hne
+  have hn : NoReportAfterCancel st.emitted := by
+    cases hc : st.cancelled with
+    | false => exact nrac_of_nocancel _ (e.before hc)
+    | true => exact (e.after hc).2
+  refine ⟨hn, ?_, ?_⟩
+  · intro hc
+    have h1 := (e.after hc).1
+    have h2 := p.closed h1
+    exact ⟨h2.1, h2.2.1, h1⟩
+  · intro sched hs
+    rw [nrac_filter, hs]; exact hn
+
+/-- **`Engine.Wait()` returns after the aggregator** — for EVERY trace (external cancels included): the pool's
+`onWaitDone` (what `Engine.Wait()` waits for, and what closes `awaitErr`, the only way `pool.Run` and with it
+`Engine.Run` return nil) happens only after `awaitRun` received the aggregator's result, i.e. after
+`Aggregator.Run` returned (drained, flushed, closed), after all instances finished and the queue's cancel was
+issued; and no instance ever sends its result on the closed `runRes` channel (no panic). -/
+theorem C06_pool_wait_after_aggregator (trace : List PEv) :
+    let st := run (init Gen.AggQ.engineResultsToWait) trace
+    (st.waitDone = true → st.aggDone = true ∧ st.aggOpen = false ∧ st.runResOpen = false ∧ st.running = 0 ∧
+       st.cancelled = true) ∧
+    st.sendOnClosed = false := by
+  intro st
+  have hst : st = run (init 4) trace := by
+    show run (init Gen.AggQ.engineResultsToWait) trace = _
+    rw [Bridge.AggQ.results_to_wait]
+  have p : PInv st := by rw [hst]; exact pinv_run trace pinv_init
+  refine ⟨?_, p.noSend⟩
+  intro hw
+  have h0 := p.wd hw
+  have hacct := p.acct
+  have ha : st.aggOpen = false := by
+    cases h : st.aggOpen with
+    | false => rfl
+    | true =>
+      rw [h0, h, b2n_true] at hacct
+      have := b2n_le st.provOpen; have := b2n_le st.startResOpen; have := b2n_le st.runResOpen
+      omega
+  have hr : st.runResOpen = false := by
+    cases h : st.runResOpen with
+    | false => rfl
+    | true =>
+      rw [h0, h, b2n_true] at hacct
+      have := b2n_le st.provOpen; have := b2n_le st.startResOpen; have := b2n_le st.aggOpen
+      omega
+  have hc : st.cancelled = true := by
+    rw [hst] at hr ⊢
+    exact cinv_run trace (by simp [init]) hr
+  exact ⟨p.aggTaken ha, ha, hr, (p.closed hr).1, hc⟩
+
+/-- **a run that ends by itself is complete** — composition of the pool and the queue models: any pool trace
+without external cancel, any aggregator schedule that agrees with it on reports and cancel, any queue
+size and reporter programs: when `Run` has returned, sink ++ counted drops is a permutation of all Report
+calls, nothing is left queued or buffered, the sink is closed, the error counts the drops. -/
+theorem C06_end_of_run_complete {β : Type} (cfg : Pandora.Model.AggQueue.Cfg) (progs : Nat → List β)
+    (trace : List PEv) (hne : ∀ e ∈ trace, e ≠ PEv.extCancel) (sched : List Ev)
+    (hcons : sched.filter isRC = (run (init Gen.AggQ.engineResultsToWait) trace).emitted) :
+    let st := Pandora.Model.AggQueue.run cfg (Pandora.Model.AggQueue.init progs) sched
+    st.phase = .returned →
+      (st.out ++ st.dropped).Perm st.reports ∧ st.q = [] ∧ st.buf = [] ∧ st.closed = true ∧
+      st.err = runErr cfg st.dropped.length := by
+  intro st hret
+  have hs := (C06_pool_cancel_after_reports trace hne).2.2 sched hcons
+  obtain ⟨h1, _, _, h4, h5, h6, _, h8, h9⟩ := C06_queue_complete cfg progs sched hs hret
+  refine ⟨h1, h4, h5, h6, ?_⟩
+  unfold runErr
+  cases hk : cfg.kind with
+  | phout => exact (h8 hk).2.2.1
+  | encoder => exact (h9 hk).1
+
+/-- non-vacuity: two instances report and finish, the await loop sees both results and the start result, issues
+the cancel; the aggregator returns, everything is awaited, `onWaitDone` -/
+example :
+    let st := run (init 4) [.launch, .launch, .startDone, .report 0, .finish, .awaitInst, .report 1, .finish,
+      .awaitStart, .awaitInst, .aggReturn, .awaitAgg, .provReturn, .awaitProv, .waitDone]
+    st.emitted = [Ev.report 0, Ev.report 1, Ev.cancel] ∧ st.waitDone = true ∧ st.toWait = 0 := by decide
+
+/-- the guard matters: with `awaitedInstances >= startedInstances` alone (`startedInstances` is −1 until the
+start result was taken) the cancel would be issued while instances are still being started -/
+example :
+    let st := run (init 4) [.launch, .finish, .awaitInst]
+    st.cancelled = false ∧ st.startedInstances = -1 ∧ st.awaitedInstances = 1 := by decide
+
+end Pool
+
+/-! ## the models are the code: regenerated control skeletons -/
+
+/-- **tie to the source** — the control skeletons of the functions the three transition systems mirror, re-read
+from /repo on every run (gen/area_aggq.go), are the ones the models were written from: Reporter
+(non-blocking send, one `Inc` per drop, `DroppedErr` nil iff zero, the error text), the encoder aggregator's
+`Run` (defer order: encoder close/flush runs before sink close + `DroppedErr`; select; drain loop), the JSON
+encoder (value then LF; flush of both layers), phout's `Run`/`Report`, the pool's await loop and
+`checkAllInstancesAreFinished` with `resultsToWait = 4`, `awaitPandoraTermination`; and the file sink opens
+with `O_WRONLY|O_CREATE|O_TRUNC`, never `O_APPEND`. The expected skeletons are the `…Expected` strings of
+`Pandora.Bridge.AggQ`. -/
+theorem C06_source_shape :
+    Gen.AggQ.reporterReport = Bridge.AggQ.reporterReportExpected ∧
+    Gen.AggQ.reporterDropSample = Bridge.AggQ.reporterDropSampleExpected ∧
+    Gen.AggQ.reporterDroppedErr = Bridge.AggQ.reporterDroppedErrExpected ∧
+    Gen.AggQ.droppedErrorText = Bridge.AggQ.droppedErrorTextExpected ∧
+    Gen.AggQ.newReporter = Bridge.AggQ.newReporterExpected ∧
+    Gen.AggQ.encoderRun = Bridge.AggQ.encoderRunExpected ∧
+    Gen.AggQ.encoderHandleSample = Bridge.AggQ.encoderHandleSampleExpected ∧
+    Gen.AggQ.jsonEncode = Bridge.AggQ.jsonEncodeExpected ∧
+    Gen.AggQ.jsonFlush = Bridge.AggQ.jsonFlushExpected ∧
+    Gen.AggQ.newJSONLinesAggregator = Bridge.AggQ.newJSONLinesAggregatorExpected ∧
+    Gen.AggQ.newJSONEncoder = Bridge.AggQ.newJSONEncoderExpected ∧
+    Gen.AggQ.fileOpenSink = Bridge.AggQ.fileOpenSinkExpected ∧
+    Gen.AggQ.phoutRun = Bridge.AggQ.phoutRunExpected ∧
+    Gen.AggQ.phoutReport = Bridge.AggQ.phoutReportExpected ∧
+    Gen.AggQ.newPhout = Bridge.AggQ.newPhoutExpected ∧
+    Gen.AggQ.engineCheckAllFinished = Bridge.AggQ.engineCheckAllFinishedExpected ∧
+    Gen.AggQ.engineIsStartFinished = Bridge.AggQ.engineIsStartFinishedExpected ∧
+    Gen.AggQ.engineAwaitRun = Bridge.AggQ.engineAwaitRunExpected ∧
+    Gen.AggQ.engineAwaitRunAsync = Bridge.AggQ.engineAwaitRunAsyncExpected ∧
+    Gen.AggQ.engineWait = Bridge.AggQ.engineWaitExpected ∧
+    Gen.AggQ.cliAwaitTermination = Bridge.AggQ.cliAwaitTerminationExpected ∧
+    Gen.AggQ.cliRunEngine = Bridge.AggQ.cliRunEngineExpected ∧
+    Gen.AggQ.engineResultsToWait = 4 ∧
+    Gen.AggQ.fileOpenFlags = Gen.AggQ.osWRONLY ||| Gen.AggQ.osCREATE ||| Gen.AggQ.osTRUNC ∧
+    Gen.AggQ.fileOpenFlags &&& Gen.AggQ.osAPPEND = 0 :=
+  ⟨Bridge.AggQ.reporterReport_eq, Bridge.AggQ.reporterDropSample_eq, Bridge.AggQ.reporterDroppedErr_eq, Bridge.AggQ.droppedErrorText_eq, Bridge.AggQ.newReporter_eq, Bridge.AggQ.encoderRun_eq, Bridge.AggQ.encoderHandleSample_eq, Bridge.AggQ.jsonEncode_eq, Bridge.AggQ.jsonFlush_eq, Bridge.AggQ.newJSONLinesAggregator_eq, Bridge.AggQ.newJSONEncoder_eq, Bridge.AggQ.fileOpenSink_eq, Bridge.AggQ.phoutRun_eq, Bridge.AggQ.phoutReport_eq, Bridge.AggQ.newPhout_eq, Bridge.AggQ.engineCheckAllFinished_eq, Bridge.AggQ.engineIsStartFinished_eq, Bridge.AggQ.engineAwaitRun_eq, Bridge.AggQ.engineAwaitRunAsync_eq, Bridge.AggQ.engineWait_eq, Bridge.AggQ.cliAwaitTermination_eq, Bridge.AggQ.cliRunEngine_eq,
+   Bridge.AggQ.results_to_wait, Bridge.AggQ.file_flags.1, Bridge.AggQ.file_flags.2.2.1⟩
 
 /-! ## (iii) process shutdown -/
 
